@@ -33,19 +33,23 @@ Record wallet : Type := mkW {
   w_pw : Z;           (* id of the password when encrypted, else 0 *)
   w_n : Z;            (* number of entries (bip44: on the external chain) *)
   w_c : Z;            (* bip44: number of entries on the change chain; else 0 *)
+  w_coin : Z;         (* bip44: coin type of the derivation path (1 = skycoin/8000, the service default;
+                         2 = bitcoin/0); else 0 *)
   w_temp : bool }.
 
 Definition set_label (w : wallet) (l : Z) : wallet :=
-  mkW (w_name w) (w_type w) (w_seed w) l (w_enc w) (w_pw w) (w_n w) (w_c w) (w_temp w).
+  mkW (w_name w) (w_type w) (w_seed w) l (w_enc w) (w_pw w) (w_n w) (w_c w) (w_coin w) (w_temp w).
 Definition set_enc (w : wallet) (e : bool) (pw : Z) : wallet :=
-  mkW (w_name w) (w_type w) (w_seed w) (w_label w) e pw (w_n w) (w_c w) (w_temp w).
+  mkW (w_name w) (w_type w) (w_seed w) (w_label w) e pw (w_n w) (w_c w) (w_coin w) (w_temp w).
 Definition set_counts (w : wallet) (n c : Z) : wallet :=
-  mkW (w_name w) (w_type w) (w_seed w) (w_label w) (w_enc w) (w_pw w) n c (w_temp w).
+  mkW (w_name w) (w_type w) (w_seed w) (w_label w) (w_enc w) (w_pw w) n c (w_coin w) (w_temp w).
 
-(* Wallet.Fingerprint(): type + first address, i.e. a function of type and
-   seed; 0 = "" (collection wallets have none) *)
-Definition fp_of (typ seed : Z) : Z := if typ =? TColl then 0 else typ * 1000000 + seed + 1.
-Definition fp (w : wallet) : Z := fp_of (w_type w) (w_seed w).
+(* Wallet.Fingerprint(): type + first address, i.e. a function of type, seed
+   and, for bip44 wallets, the coin type of the derivation path (ids below 1000);
+   0 = "" (collection wallets have none) *)
+Definition fp_of (typ seed coin : Z) : Z :=
+  if typ =? TColl then 0 else typ * 1000000 + coin * 1000 + seed + 1.
+Definition fp (w : wallet) : Z := fp_of (w_type w) (w_seed w) (w_coin w).
 
 Record st : Type := mkSt {
   mem : list wallet;              (* serv.wallets *)
@@ -56,7 +60,8 @@ Record st : Type := mkSt {
 Definition init : st := mkSt [] [] [] [].
 
 Inductive op : Type :=
-| Create (name : string) (typ seed label : Z) (enc : bool) (pw n : Z) (temp dfail : bool)
+| Create (name : string) (typ seed coin label : Z) (enc : bool) (pw n : Z) (temp dfail : bool)
+    (* coin: Options.Bip44Coin, 0 = not given (the service's configured coin, 1) *)
 | NewAddr (name : string) (pw n : Z) (chg : bool) (dfail : bool)   (* chg: wallet.OptionChange() *)
 | Scan (name : string) (pw num ea ca : Z) (dfail : bool)   (* ea / ca: activity on the external / change chain *)
 | SetLabel (name : string) (label : Z) (dfail : bool)
@@ -142,13 +147,14 @@ Definition keep (num act : Z) : Z := if num =? 0 then 0 else Z.min act num.
 
 Definition step_gen (scan : bool) (s : st) (o : op) : st * err :=
   match o with
-  | Create name typ seed label enc pw n temp dfail =>
+  | Create name typ seed coin label enc pw n temp dfail =>
       match create_check typ seed label enc pw temp with
       | Some e => (s, Some e)
       | None =>
         let w := mkW name typ (if typ =? TColl then 0 else seed) label enc (if enc then pw else 0)
                      (if typ =? TColl then 0 else if n =? 0 then 1 else n)
-                     (if typ =? TBip then 1 else 0) temp in
+                     (if typ =? TBip then 1 else 0)
+                     (if typ =? TBip then (if coin =? 0 then 1 else coin) else 0) temp in
         let f := fp w in
         if negb (f =? 0) && has_fp f (fps s) then (s, E "ErrFingerprintConflict")
         else if scan && negb (f =? 0) && negb temp && dfail then (s, E "EDisk")     (* ReadDir of the scan fails *)
@@ -228,8 +234,8 @@ Definition step_gen (scan : bool) (s : st) (o : op) : st * err :=
           (* the comparison wallet is created with the old label and the given seed:
              an empty label or seed makes that creation fail *)
           else if (w_label w =? 0) || (seed =? 0) then (s, E "ERecoverCreate")
-          else if negb (fp_of (w_type w) seed =? fp w) then (s, E "ErrWalletRecoverSeedWrong")
-          else commit s (mkW (w_name w) (w_type w) seed (w_label w) (negb (pw =? 0)) pw (w_n w) (w_c w) false) dfail
+          else if negb (fp_of (w_type w) seed (w_coin w) =? fp w) then (s, E "ErrWalletRecoverSeedWrong")
+          else commit s (mkW (w_name w) (w_type w) seed (w_label w) (negb (pw =? 0)) pw (w_n w) (w_c w) (w_coin w) false) dfail
       end
   | Unload name =>
       match find name (mem s) with
@@ -302,7 +308,7 @@ Definition reload (d : list wallet) : reloaded :=
    next start does not load) *)
 Definition wf_op (o : op) : bool :=
   match o with
-  | Create name _ _ _ _ _ n _ _ => name_ok name && (0 <=? n)
+  | Create name _ _ _ _ _ _ n _ _ => name_ok name && (0 <=? n)
   | NewAddr _ _ n _ _ => 0 <=? n
   | Scan _ _ num ea ca _ => (0 <=? num) && (0 <=? ea) && (0 <=? ca)
   | _ => true
@@ -313,7 +319,7 @@ Definition wf_op (o : op) : bool :=
 Definition eqb_wallet (a b : wallet) : bool :=
   String.eqb (w_name a) (w_name b) && (w_type a =? w_type b) && (w_seed a =? w_seed b) &&
   (w_label a =? w_label b) && Bool.eqb (w_enc a) (w_enc b) && (w_pw a =? w_pw b) &&
-  (w_n a =? w_n b) && (w_c a =? w_c b) && Bool.eqb (w_temp a) (w_temp b).
+  (w_n a =? w_n b) && (w_c a =? w_c b) && (w_coin a =? w_coin b) && Bool.eqb (w_temp a) (w_temp b).
 
 (* memory without temporary wallets *)
 Definition non_temp (l : list wallet) : list wallet := filter (fun w => negb (w_temp w)) l.
